@@ -260,6 +260,10 @@ impl Qcow2Header {
             .with_fixint_encoding()
             .with_big_endian();
 
+        if header_buf.len() < size_of::<Qcow2RawHeader>() {
+            return Err("header buffer is too small".into());
+        }
+
         let mut header: Qcow2RawHeader =
             bincode.deserialize(&header_buf[0..size_of::<Qcow2RawHeader>()])?;
         if header.magic != Self::QCOW2_MAGIC {
